@@ -114,9 +114,9 @@ def run(ctx):
     from props import schemax
     schemax.family_built(ctx, fam)   # builds (or loads) the family cache
     pairs = [(a, b) for a, b in itertools.permutations(fam, 2)]
-    if ctx.quick:
+    if True:
         # focus groups: all ordered pairs within each group (in the
-        # thorough tier they are part of the full family anyway)
+        # thorough tier most of them are part of the full family anyway)
         for g, allpairs in schemas.FOCUS_GROUPS:
             extra = [m for m in g if m not in fam]
             fam = fam + extra
